@@ -519,7 +519,7 @@ def gen_c08_tls(rng):
 
 
 # ------------------------------------------------------------------ C09 (client role)
-SERVER_CERTS = ["server", "server_othername", "server_ca2", "server_expired", "server_notyet", "ss_a", "ss_b", "ss_expired"]
+SERVER_CERTS = ["server", "server_othername", "server_cnonly", "server_ca2", "server_expired", "server_notyet", "ss_a", "ss_b", "ss_expired"]
 
 
 def gen_c09_client(rng, thorough=False):
@@ -539,6 +539,15 @@ def gen_c09_client(rng, thorough=False):
             sc["name"] = name
             sc["local_cert"] = "client_operator" if mode == "ca" else "ss_b"
             scs.append(sc)
+            # the deprecated constructor TlsClientConfig::new(name, .., certificate_mode) must mean the same
+            if name is not None or mode == "self":
+                lg = json.loads(json.dumps(sc))
+                lg["ctor"] = "legacy"
+                lg["tag"] += "-legacy-constructor"
+                lg["id"] = len(scs)
+                if not thorough:
+                    lg["steps"] = lg["steps"][::2] if min_tls == "1.2" else lg["steps"][1::2]
+                scs.append(lg)
     return scs
 
 
